@@ -424,6 +424,28 @@ def gen_problem(rng, opts=None):
                     items.append(T("%dr" % (j - k)))
                 k = j + 1
             data.append([T("vol")] + items)
+    elif place["vol"] == "data" and vols and o.get("vol_interpolate") and len(cell_nums) >= 3 and rng.random() < 0.5:
+        # a data-block VOL card with an interpolate shortcut: 'vol 2 3i 6' (an edit of an interior cell's volume breaks
+        # the shortcut up; the values it generated are then written one by one)
+        n = len(cell_nums)
+        k = rng.randint(1, n - 2)                      # generated entries
+        i0 = rng.randint(0, n - k - 2)                 # index of the start value
+        a = rng.choice([2, 1, 0.5, 10])
+        step = rng.choice([1, 0.5, 2.5, 0.25])
+        card = [T("vol")]
+        for idx, c in enumerate(cell_nums):
+            if idx < i0 or idx > i0 + k + 1:
+                card.append(T(vols[c]) if c in vols else T("j"))
+            elif idx == i0:
+                card += [T("%g" % a), T("%di" % k)]
+                vols[c] = "%g" % a
+            elif idx == i0 + k + 1:
+                card.append(T("%g" % (a + (k + 1) * step)))
+                vols[c] = "%g" % (a + (k + 1) * step)
+            else:
+                vols[c] = "%g" % (a + (idx - i0) * step)
+        P["meta"]["vol_interpolated"] = True
+        data.append(card)
     elif place["vol"] == "data" and vols:
         card = [T("vol")]
         for c in cell_nums:
